@@ -95,7 +95,7 @@ fn vs_complete(t: &Tab) -> bool {
 
 /// one symbol through every Display impl that can hold it
 fn print_all(ctx: &mut Ctx, t: &Tab, rng: &mut Rng, with_sets: bool, class: &str) {
-    let counters = [1usize, 1, 1, 7, 12, 345, 100000];
+    let counters = [1usize, 1, 1, 7, 12, 345, 100000, 255, 256, 65535, 65536, 4294967296];
     let setc = counters[rng.below(counters.len())];
     let symc = counters[rng.below(counters.len())];
     print_case(ctx, "psym", setc, 1, t, class);
@@ -413,6 +413,358 @@ fn utf8_streams(ctx: &mut Ctx, rng: &mut Rng, pool: &[Tab], n_random: usize) {
     }
 }
 
+// ---------------------------------------------------------------------------------
+// large symbols (sizes straddling representation boundaries), built with the harness's own
+// table code; every helper below is linear in the size
+
+/// the (i,i+1)-orbits of a complete table: (members ascending-first, orbit length r)
+fn orbits_fast(t: &Tab, i: usize) -> Vec<(Vec<usize>, usize)> {
+    let mut seen = vec![false; t.size + 1];
+    let mut out = vec![];
+    for d in 1..=t.size {
+        if seen[d] {
+            continue;
+        }
+        let mut members = vec![d];
+        seen[d] = true;
+        let mut k = 0;
+        while k < members.len() {
+            let e = members[k];
+            k += 1;
+            for j in [i, i + 1] {
+                let f = t.op[j][e];
+                if !seen[f] {
+                    seen[f] = true;
+                    members.push(f);
+                }
+            }
+        }
+        let mut r = 0;
+        let mut e = d;
+        loop {
+            e = t.op[i + 1][t.op[i][e]];
+            r += 1;
+            if e == d {
+                break;
+            }
+        }
+        out.push((members, r));
+    }
+    out
+}
+
+fn assign_vs_fast(t: &mut Tab, rng: &mut Rng, vals: &[usize]) {
+    for i in 0..t.dim {
+        for (members, _) in orbits_fast(t, i) {
+            let v = vals[rng.below(vals.len())];
+            for e in members {
+                t.v[i][e] = v;
+            }
+        }
+    }
+}
+
+/// what Display prints for a complete table, computed in linear time
+fn spec_lists_fast(t: &Tab) -> (Vec<Vec<usize>>, Vec<Vec<usize>>) {
+    let mut ops = vec![];
+    for i in 0..=t.dim {
+        ops.push((1..=t.size).filter(|&d| t.op[i][d] >= d).map(|d| t.op[i][d]).collect());
+    }
+    let mut ms = vec![];
+    for i in 0..t.dim {
+        ms.push(orbits_fast(t, i).into_iter().map(|(mem, r)| r * t.v[i][mem[0]]).collect());
+    }
+    (ops, ms)
+}
+
+/// one chain under s0, s1 (a single long 2-orbit); further operations: identity, or for the last
+/// index of dim 3 the chain's mirror d ↦ n+1-d when that commutes (it always does with the identity)
+fn chain_tab(n: usize, dim: usize) -> Tab {
+    let mut op = vec![vec![0usize; n + 1]; dim + 1];
+    for d in 1..=n {
+        op[0][d] = if d % 2 == 1 && d < n { d + 1 } else if d % 2 == 0 { d - 1 } else { d };
+        op[1][d] = if d % 2 == 0 && d < n { d + 1 } else if d % 2 == 1 && d > 1 { d - 1 } else { d };
+        for i in 2..=dim {
+            op[i][d] = d;
+        }
+    }
+    if dim == 1 {
+        // dim 1 has only s0, s1
+    }
+    Tab { size: n, dim, op, v: vec![vec![0; n + 1]; dim] }
+}
+
+/// consecutive blocks of 1..=6 chambers, each a random tuple of involutions (short orbits)
+fn blocks_tab(n: usize, dim: usize, rng: &mut Rng) -> Tab {
+    let mut op = vec![vec![0usize; n + 1]; dim + 1];
+    let mut start = 1;
+    while start <= n {
+        let b = (1 + rng.below(6)).min(n + 1 - start);
+        for i in 0..=dim {
+            let p = rng.permutation(b);
+            let mut k = 0;
+            while k < b {
+                let x = start + p[k];
+                if k + 1 < b && rng.chance(3, 4) {
+                    let y = start + p[k + 1];
+                    op[i][x] = y;
+                    op[i][y] = x;
+                    k += 2;
+                } else {
+                    op[i][x] = x;
+                    k += 1;
+                }
+            }
+        }
+        start += b;
+    }
+    Tab { size: n, dim, op, v: vec![vec![0; n + 1]; dim] }
+}
+
+fn text_from_lists(size: usize, dim: usize, ops: &[Vec<usize>], ms: &[Vec<usize>], rng: &mut Rng, fancy: bool) -> String {
+    let mut s = String::with_capacity(16 * size);
+    let w0 = |rng: &mut Rng| if fancy && rng.chance(1, 40) { ws(rng, false) } else { String::new() };
+    let w1 = |rng: &mut Rng| if fancy && rng.chance(1, 40) { ws(rng, true) } else { " ".to_string() };
+    s.push('<');
+    s += "1.1:";
+    s += &size.to_string();
+    if dim != 2 || fancy {
+        s.push(' ');
+        s += &dim.to_string();
+    }
+    for lists in [ops, ms] {
+        s += &w0(rng);
+        s.push(':');
+        s += &w0(rng);
+        for (k, l) in lists.iter().enumerate() {
+            if k > 0 {
+                s += &w0(rng);
+                s.push(',');
+                s += &w0(rng);
+            }
+            for (j, &x) in l.iter().enumerate() {
+                if j > 0 {
+                    s += &w1(rng);
+                }
+                s += &x.to_string();
+            }
+        }
+    }
+    s.push('>');
+    s
+}
+
+fn size_tag(n: usize) -> String {
+    format!("bigsize={}", n)
+}
+
+/// symbols with at least BIG chambers go through the Spec-only ops (their text is not shipped)
+const BIG: usize = 10_000;
+
+fn print_any(ctx: &mut Ctx, rep: &str, setc: usize, symc: usize, t: &Tab, class: &str) {
+    if t.size < BIG {
+        print_case(ctx, rep, setc, symc, t, class);
+        return;
+    }
+    let tag = format!("nt {} rep={} dim={} {}", class, rep, t.dim, size_tag(t.size));
+    ctx.case(
+        "bigprint",
+        &tag,
+        || format!("{} {} {} {}", rep, setc, symc, t.enc()),
+        || {
+            let text = match rep {
+                "pset" => t.to_partial_dset().to_string(),
+                "sset" => SimpleDSet::from_partial(t.to_partial_dset(), setc).to_string(),
+                "psym" => psym_of(t, setc).to_string(),
+                "ssym" => SimpleDSym::from_partial(psym_of(t, setc), symc).to_string(),
+                _ => unreachable!(),
+            };
+            format!("{} {}", text.len(), again(&text))
+        },
+    );
+}
+
+/// parse → print → parse on a text the harness wrote itself from its own table
+fn bigparse_case(ctx: &mut Ctx, t: &Tab, layout: usize, seed: u64, class: &str) {
+    let tag = format!("nt {} dim={} {} layout={}", class, t.dim, size_tag(t.size), layout);
+    ctx.case(
+        "bigparse",
+        &tag,
+        || format!("{} {}", layout, t.enc()),
+        || {
+            let (ops, ms) = spec_lists_fast(t);
+            let mut r = Rng::new(seed);
+            let text = text_from_lists(t.size, t.dim, &ops, &ms, &mut r, layout != 0);
+            match text.parse::<PartialDSym>() {
+                Err(_) => format!("{} ERR", text.len()),
+                Ok(ds) => {
+                    let text2 = ds.to_string();
+                    format!("{} OK {} {}", text.len(), sym_out(&ds), again(&text2))
+                }
+            }
+        },
+    );
+}
+
+/// ≥ 2^20 chambers: both directions, the tables compared by the harness's own `Tab ==`
+fn bigdigest_case(ctx: &mut Ctx, what: &str, n: usize, dim: usize, seed: u64) {
+    let tag = format!("nt digest dim={} {}", dim, size_tag(n));
+    ctx.case(
+        "bigdigest",
+        &tag,
+        || format!("{} {} {}", what, n, dim),
+        || {
+            let mut r = Rng::new(seed);
+            let mut t = if what == "chain" { chain_tab(n, dim) } else { blocks_tab(n, dim, &mut r) };
+            assign_vs_fast(&mut t, &mut r, &[1, 2, 3]);
+            let b = |x: bool| if x { 1 } else { 0 };
+            let text = psym_of(&t, 1).to_string();
+            let tabs = |ds: &PartialDSym| -> (Tab, Vec<usize>) {
+                let tt = Tab::from_dsym(ds);
+                let mut m = vec![];
+                for i in 0..tt.dim {
+                    for d in 1..=tt.size {
+                        m.push(ds.m(i, i + 1, d).unwrap_or(0));
+                    }
+                }
+                (tt, m)
+            };
+            match text.parse::<PartialDSym>() {
+                Err(_) => format!("{} 0 0 0 0 0", text.len()),
+                Ok(ds) => {
+                    let (t1, m1) = tabs(&ds);
+                    let invol = (0..=t1.dim).all(|i| (1..=t1.size).all(|d| {
+                        let e = t1.op[i][d];
+                        e >= 1 && e <= t1.size && t1.op[i][e] == d
+                    }));
+                    let equal = t1 == t;
+                    let text2 = ds.to_string();
+                    match text2.parse::<PartialDSym>() {
+                        Err(_) => format!("{} 1 {} {} 0 0", text.len(), b(equal), b(invol)),
+                        Ok(ds2) => {
+                            let (t2, m2) = tabs(&ds2);
+                            format!("{} 1 {} {} 1 {}", text.len(), b(equal), b(invol), b(t2 == t1 && m2 == m1))
+                        }
+                    }
+                }
+            }
+        },
+    );
+}
+
+fn large_streams(ctx: &mut Ctx, th: bool) {
+    use std::cell::OnceCell;
+    let sizes: &[usize] = &[255, 256, 257, 4095, 4096, 65535, 65536, 65537, 100001];
+    for (k, &n) in sizes.iter().enumerate() {
+        for dim in 1..=3usize {
+            // a long chain and a renumbered block symbol per (size, dim); built lazily (only by the
+            // shard that owns one of the cases) from a generator stream of their own
+            let seed = ctx.seed.wrapping_mul(7919).wrapping_add((n * 4 + dim) as u64);
+            let chain_c: OnceCell<Tab> = OnceCell::new();
+            let blocks_c: OnceCell<Tab> = OnceCell::new();
+            let chain = || {
+                chain_c.get_or_init(|| {
+                    let mut r = Rng::new(seed);
+                    let mut t = chain_tab(n, dim);
+                    assign_vs_fast(&mut t, &mut r, &[1, 2, 3]);
+                    t
+                })
+            };
+            let blocks = || {
+                blocks_c.get_or_init(|| {
+                    let mut r = Rng::new(seed ^ 0x5555);
+                    let mut t = blocks_tab(n, dim, &mut r);
+                    assign_vs_fast(&mut t, &mut r, &[1, 2, 3, 4, 6]);
+                    let p = random_perm1(&mut r, n);
+                    t.renumbered(&p)
+                })
+            };
+            let plain = || {
+                let mut t = blocks().clone();
+                t.v = vec![vec![0; n + 1]; dim];
+                t
+            };
+            let heavy = n >= BIG;
+            // every call below emits exactly one case
+            macro_rules! mine {
+                ($body:expr) => {
+                    if ctx.peek_mine() {
+                        $body
+                    } else {
+                        ctx.skip()
+                    }
+                };
+            }
+            // print → parse → equal
+            mine!(print_any(ctx, "psym", 1, 1, chain(), "large-chain"));
+            mine!(print_any(ctx, if (k + dim) % 2 == 0 { "ssym" } else { "psym" }, 65536, 257, blocks(), "large-blocks"));
+            if !heavy || dim == 2 {
+                mine!(print_any(ctx, "sset", 4096, 1, &plain(), "large-blocks"));
+                mine!(print_any(ctx, "pset", 1, 1, &plain(), "large-blocks"));
+                mine!(print_any(ctx, "ssym", 255, 65535, chain(), "large-chain"));
+            }
+            // parse → print → parse, on texts written by the harness
+            if heavy {
+                mine!(bigparse_case(ctx, if dim == 2 { blocks() } else { chain() }, (k + dim) % 2, seed, "large"));
+            } else {
+                for which in 0..2 {
+                    mine!({
+                        let t = if which == 0 { chain() } else { blocks() };
+                        let (ops, ms) = spec_lists_fast(t);
+                        let mut r = Rng::new(seed ^ 0xabcd);
+                        let text = text_from_lists(t.size, t.dim, &ops, &ms, &mut r, which == 1);
+                        parse_case(ctx, &text, "large")
+                    });
+                }
+            }
+        }
+    }
+    if th {
+        // 2^20 + 1 chambers (text ≈ 20 MB): verdict bits only.  2^24 + 1 is not run: the library's
+        // tables for one such symbol take several GB, times 16 shards
+        bigdigest_case(ctx, "chain", (1 << 20) + 1, 2, 11);
+        bigdigest_case(ctx, "blocks", (1 << 20) + 1, 3, 12);
+        bigdigest_case(ctx, "blocks", (1 << 20) + 1, 1, 13);
+    }
+}
+
+/// boundary numerals in every numeric field of small valid texts
+fn boundary_numerals(ctx: &mut Ctx, pool: &[Tab], rng: &mut Rng) {
+    const B: [&str; 22] = [
+        "255", "256", "257", "4095", "4096", "32767", "32768", "65535", "65536", "65537", "100001",
+        "1048577", "16777217", "2147483647", "2147483648", "4294967295", "4294967296", "4294967297",
+        "9223372036854775807", "9223372036854775808", "18446744073709551615", "18446744073709551616",
+    ];
+    let mut bases: Vec<String> = vec![
+        "<1.1:1:1,1,1:3,4>".into(),
+        "<1.1:2 3:2,1 2,1 2,2:6,3 2,6>".into(),
+        "<1.1:2 1:2,1 2:4>".into(),
+        "<1.1:6:4 6 5,5 4 6,4 6 5:3,6>".into(),
+    ];
+    for _ in 0..4 {
+        bases.push(grammar_text(&pool[rng.below(pool.len())], rng, false));
+    }
+    for base in &bases {
+        let toks = tokenize(base);
+        for k in 0..toks.len() {
+            if !toks[k].as_bytes()[0].is_ascii_digit() {
+                continue;
+            }
+            for b in B {
+                let mut t = toks.clone();
+                t[k] = b.to_string();
+                parse_case(ctx, &t.concat(), "boundary");
+            }
+        }
+    }
+    // degrees at the boundaries that are legal (every orbit of the one-chamber symbol has length 1),
+    // so the value survives parsing and is printed again
+    for b in B {
+        parse_case(ctx, &format!("<1.1:1:1,1,1:{},{}>", b, b), "boundary");
+        parse_case(ctx, &format!("<{}.{}:1 1:1,1:{}>", b, b, b), "boundary");
+    }
+}
+
 fn main() {
     let mut ctx = Ctx::from_args();
     let th = ctx.thorough();
@@ -549,6 +901,10 @@ fn main() {
         big.push(r);
         pool.push(base);
     }
+
+    // ---- (2b) large symbols and boundary numerals
+    large_streams(&mut ctx, th);
+    boundary_numerals(&mut ctx, &pool, &mut rng);
 
     // ---- (3) strings
     let nstr = if th { 500_000 } else { 20_000 };
